@@ -307,6 +307,9 @@ func (pc *progCase) run(t *testing.T, r *Rng, sc *scenario) (string, bool) {
 		if sc != nil {
 			spec = sc.txs[ti]
 			spec.GasPrice = new(big.Int).Add(be.cfg.BaseFee, Bi(1000))
+			if spec.Type == 2 {
+				spec.TipCap, spec.FeeCap = Bi(1000), new(big.Int).Add(be.cfg.BaseFee, Bi(2000))
+			}
 		} else {
 			spec = g.txSpec(be.cfg.BaseFee)
 		}
@@ -625,7 +628,7 @@ func (pc *progCase) emitCoq(msg core.Message, be blockEnv, eT, gT outcome, sE, s
 }
 
 func blankView(v acctView) bool {
-	return !v.Exists && v.Nonce == 0 && v.Balance.Sign() == 0 && len(v.Code) == 0 && len(v.Storage) == 0 && len(v.StorageRaw) == 0
+	return !v.Exists && v.Nonce == 0 && v.Balance.Sign() == 0 && len(v.Code) == 0 && len(v.Storage) == 0 && len(v.StorageRaw) == 0 && !v.Other
 }
 
 func opsMention(ops []opRec, a common.Address) bool {
@@ -685,6 +688,8 @@ func TestDriverGethdiff(t *testing.T) {
 			cases.Add(c)
 		}
 	}
+	// end-to-end leg: transactions delivered in real blocks
+	runE2ECases(t, newWorld(t, true), rng, 12+n/12, side, n+len(directed)+nRand)
 	cases.Write(t, 60)
 	side.Write(t, out)
 }
